@@ -114,17 +114,17 @@ def onStreamDestroy (s : State) (c : Nat) : State :=
   let s2 := { s1 with reqCur := resDecrease s1.maxReq s1.reqCur }
   if putBack s2.kind (s2.client c).closed then { s2 with idle := s2.idle ++ [c] } else s2
 
-/-- `BaseStream.DestroyStream`: CAS `state` from reset, tell the listeners once. -/
+/-- `BaseStream.DestroyStream`: CAS `state` from reset (regenerated guard), tell the listeners once. -/
 def destroyStream (s : State) (i : Nat) : State :=
   let st := s.stream i
-  if st.state = streamStateReset then
-    onStreamDestroy (s.updS i (fun st => { st with state := streamStateDestroyed, destroys := st.destroys + 1 })) st.conn
+  if destroyProceeds st.state then
+    onStreamDestroy (s.updS i (fun st => { st with state := destroyedState, destroys := st.destroys + 1 })) st.conn
   else s
 
 /-- `BaseStream.ResetStream`: only from state reset; listeners get `OnResetStream`, then the stream is destroyed. -/
 def resetStream (s : State) (i : Nat) (reason : String) : State :=
   let st := s.stream i
-  if st.state = streamStateReset then
+  if resetProceeds st.state then
     let s1 := s.updS i (fun st => { st with resets := st.resets ++ [reason] })
     let s2 := s1.updC st.conn (fun cl => { cl with
       cwar := cl.cwar || markCwar s.kind reason,
